@@ -15,6 +15,8 @@
 //!   new | part <id> <value> <intended> <skim|none> <total> <cltv> <tag> <ev> | tick | block <h> | claim <known> |
 //!   claimdone | failback      -> inconsistent? claimable:<amt>:<skimmed>:<deadline>? fail:<id>* fulfil:<id>* claimed:<amt>:<skimmed>:<total>? | none
 //!   admit <allow_underpay> <onion_amt> <amt> <skim|none>   -> ok | low     (the amount test in front of the accumulator)
+//!   routing <none|ok|bad> <0|1>                             -> keysend | invoice | err <reason>  (create_recv_pending_htlc_info's routing selection)
+//!   mincltv <height> <min_final_cltv_delta> <cltv_expiry>  -> ok | soon    (the test after inbound_payment::verify in process_receive_htlcs)
 //! `value` is the amount of the update_add_htlc the receiver got, `intended` the onion's amt_to_forward, `skim` the
 //! message's skimmed_fee_msat TLV: they differ when the part came through the intercepting last hop (node 2), which
 //! forwards less (skimmed fee; the receiver runs with accept_underpaying_htlcs) or more than the onion says.
@@ -597,24 +599,29 @@ mod mpp {
 		bal0: u64,
 		claimed_total: u64,
 		kind: &'static str,
+		/// the min_final_cltv_expiry_delta the payment secret was registered with (None: not encoded in the secret)
+		min_cltv: Option<u16>,
 	}
 
 	impl Scn {
 		fn new(w: &mut World, rec: &mut Rec, rng: &mut Rng, kind: &'static str, min: Option<u64>, two_secrets: bool, expiry_delta: u32) -> Scn {
+			Scn::new_cltv(w, rec, rng, kind, min, two_secrets, expiry_delta, None)
+		}
+		fn new_cltv(w: &mut World, rec: &mut Rec, rng: &mut Rng, kind: &'static str, min: Option<u64>, two_secrets: bool, expiry_delta: u32, min_cltv: Option<u16>) -> Scn {
 			w.reset_logs();
 			w.used += 1;
 			let preimage = PaymentPreimage(rng.bytes32());
 			let hash = PaymentHash(sha256::Hash::hash(&preimage.0).to_byte_array());
 			let node = w.net.nodes[RECV].node;
-			let mut secrets = vec![node.create_inbound_payment_for_hash(hash, min, expiry_delta, None, None).unwrap().0];
+			let mut secrets = vec![node.create_inbound_payment_for_hash(hash, min, expiry_delta, min_cltv, None).unwrap().0];
 			if two_secrets {
 				// a second invoice for the same hash (another minimum) has another, equally valid, secret
 				let m2 = Some(min.unwrap_or(4) / 2 + 1);
-				let s2 = node.create_inbound_payment_for_hash(hash, m2, expiry_delta, None, None).unwrap().0;
+				let s2 = node.create_inbound_payment_for_hash(hash, m2, expiry_delta, min_cltv, None).unwrap().0;
 				if s2 != secrets[0] { secrets.push(s2); }
 			}
 			rec.directive("new");
-			Scn { hash, preimage, secrets, min: min.unwrap_or(0), held: vec![], claimable_set: None, announced: (0, 0, 0, 0), ops: vec!["new".into()], deadline: None, dead: false, stuck: false, bal0: w.recv_balance(), claimed_total: 0, kind }
+			Scn { hash, preimage, secrets, min: min.unwrap_or(0), held: vec![], claimable_set: None, announced: (0, 0, 0, 0), ops: vec!["new".into()], deadline: None, dead: false, stuck: false, bal0: w.recv_balance(), claimed_total: 0, kind, min_cltv }
 		}
 
 		fn onion(&self, p: &PartSpec, secret: PaymentSecret) -> RecipientOnionFields {
@@ -679,6 +686,7 @@ mod mpp {
 		fn op_part(&mut self, w: &mut World, rec: &mut Rec, p: &PartSpec) -> PartOut {
 			if self.dead { return PartOut::Abort; }
 			let (tpos, epos) = (w.net.trace.len(), w.net.events[RECV].len());
+			let h0 = w.height();
 			let (_, via, strict, sent) = self.send_spec(w, p);
 			let add = match sent {
 				Ok(Ok(a)) => a,
@@ -709,6 +717,23 @@ mod mpp {
 				if !seen.claimable.is_empty() || !seen.fulfils.is_empty() || !seen.claimed.is_empty() { rec.oracle_fail(format!("[{}] an HTLC refused for its amount produced {}; ops: {}", self.kind, seen.answer(), self.history())); }
 				self.absorb(w, rec, &seen, &op);
 				return PartOut::Refused;
+			}
+			// ---- the min_final_cltv_expiry_delta test after inbound_payment::verify (process_receive_htlcs) ----------------------
+			// The secret of this scenario commits to a delta: an HTLC expiring before (receiver height + delta) must be failed
+			// back without reaching the payment logic, any other one must go on.  A refusal of the FIRST part of a hash (valid
+			// secret, total_msat >= the minimum, nothing held, no claim pending) can only come from this test.
+			if let Some(m) = self.min_cltv {
+				let want_soon = (add.cltv as u64) < h0 as u64 + m as u64;
+				let soon = failed && reached && (want_soon || (self.held.is_empty() && self.claimable_set.is_none()));
+				let mc = format!("mincltv {} {} {}", h0, m, add.cltv);
+				if soon != want_soon { rec.oracle_fail(format!("[{}] `{}` -> {}: an HTLC expiring at {} for a payment registered with min_final_cltv_expiry_delta {} was {} at height {} (earliest acceptable expiry {}); then `{}` -> {}; ops: {}", self.kind, mc, if soon { "soon" } else { "ok" }, add.cltv, m, if soon { "failed back" } else { "let through to the payment logic" }, h0, h0 as u64 + m as u64, op, seen.answer(), self.history())); }
+				let off = add.cltv as i64 - (h0 as i64 + m as i64);
+				rec.case(&mc, if soon { "soon" } else { "ok" }, &format!("mincltv:{}:{}", if soon { "soon" } else { "ok" }, if off < -1 { "below" } else if off == -1 { "boundary-1" } else if off == 0 { "boundary" } else if off == 1 { "boundary+1" } else { "above" }), true);
+				if soon {
+					if !seen.claimable.is_empty() || !seen.fulfils.is_empty() || !seen.claimed.is_empty() { rec.oracle_fail(format!("[{}] an HTLC refused for its expiry produced {}; ops: {}", self.kind, seen.answer(), self.history())); }
+					self.absorb(w, rec, &seen, &op);
+					return PartOut::Refused;
+				}
 			}
 			let out;
 			if failed {
@@ -965,7 +990,8 @@ mod mpp {
 			let (from, chan) = w.routes[route % w.routes.len()];
 			let (tpos, epos) = (w.net.trace.len(), w.net.events[RECV].len());
 			let hash = self.hash;
-			let onion = RecipientOnionFields::secret_only(secret, total);
+			// "no-secret": an onion with neither payment_data nor a keysend preimage (create_recv_pending_htlc_info's final else)
+			let onion = if what == "no-secret" { RecipientOnionFields::spontaneous_empty(total) } else { RecipientOnionFields::secret_only(secret, total) };
 			let sent = guarded(AssertUnwindSafe(|| send_raw(w, from, chan, hash, onion, amt, 80)));
 			let add = match sent { Ok(Ok(a)) => a, Ok(Err(_)) => { self.dead = true; rec.discarded += 1; return; }, Err(_) => { self.dead = true; w.bad = true; rec.discarded += 1; return; } };
 			let id = w.rank[chan] * 1_000_000 + add.htlc_id;
@@ -974,6 +1000,13 @@ mod mpp {
 			let seen = observe(w, &self.hash, tpos, epos);
 			if !seen.claimable.is_empty() || !seen.fulfils.is_empty() || !seen.claimed.is_empty() { rec.oracle_fail(format!("a {} produced {}", desc, seen.answer())); }
 			if seen.fails != vec![id] { rec.oracle_fail(format!("a {} was not (only) failed back: {}", desc, seen.answer())); }
+			// the routing selection of create_recv_pending_htlc_info (translated: MppGen.recvRouting): without payment_data and
+			// without keysend preimage the HTLC is refused with PaymentSecretRequired; with payment_data it goes to the payment logic
+			let secret_required = seen.handling_failed.iter().any(|t| t.contains("PaymentSecretRequired"));
+			let reached_logic = seen.handling_failed.iter().any(|t| t.contains("Receive") && t.contains("IncorrectPaymentDetails"));
+			let ans = if secret_required { "err PaymentSecretRequired" } else if reached_logic { "invoice" } else { "other" };
+			if (what == "no-secret") != secret_required { rec.oracle_fail(format!("a {} was {} (PaymentSecretRequired is due exactly when the onion has neither payment_data nor a keysend preimage): {:?}", desc, ans, seen.handling_failed)); }
+			rec.case(&format!("routing none {}", (what != "no-secret") as u8), ans, &format!("routing:{}", ans.replace(' ', "-")), true);
 			*bad.entry(format!("unmodelled:{}:{}", what, if seen.fails == vec![id] { "failed" } else { "NOT-failed" })).or_insert(0) += 1;
 			self.absorb(w, rec, &seen, what);
 		}
@@ -1133,7 +1166,7 @@ mod mpp {
 	const KINDS: &[(&str, u64)] = &[
 		("exact", 22), ("overlast", 6), ("tick-between", 10), ("under", 9), ("over", 9), ("bad-total", 8), ("tlv-mix", 10), ("even-all", 8),
 		("secret-mix", 6), ("deadline", 12), ("unmodelled", 9), ("during-claim", 7), ("skim", 24), ("skim-under", 7), ("overfwd", 7),
-		("deadline-order", 9),
+		("deadline-order", 9), ("min-cltv", 10),
 	];
 	/// schedules that leave HTLCs stuck in the receiver's channels: run as the last scenario of a network
 	const LAST_KINDS: &[&str] = &["claim-incomplete", "deadline-drop", "under-claim"];
@@ -1436,11 +1469,47 @@ mod mpp {
 				}
 				s.finish(w);
 			},
+			"min-cltv" => {
+				// the secret commits to a min_final_cltv_expiry_delta M; 1-3 parts whose final CLTV deltas sit around the
+				// acceptance boundary (HTLC expiry = sender height + 1 + delta, accepted iff expiry >= receiver height + M),
+				// blocks in between (the boundary moves with the height); refused parts never reach the accumulator, the
+				// others complete / are held as usual, then the usual tails
+				let k = 1 + rng.below(3) as usize;
+				let total = pick_total(rng, k);
+				let amts = split(rng, total, k);
+				let min = pick_min(rng, total);
+				let m: u16 = 46 + rng.below(90) as u16;
+				let mut s = Scn::new_cltv(w, rec, rng, kind, min, false, 7200, Some(m));
+				let mut g = Gen { rng: &mut *rng, routes: nroutes, lsp: lsp.clone() };
+				let mut parts = g.parts(&amts, total, Tlv::No, false);
+				for p in parts.iter_mut() {
+					// delta = M - 1 is the smallest accepted one
+					let off: i64 = match rng.below(8) { 0 => -3, 1 | 2 => -2, 3 | 4 => -1, 5 => 0, 6 => 1, _ => 2 + rng.below(30) as i64 };
+					p.delta = (m as i64 + off) as u32;
+					p.strict = false; p.declare = 0;
+					if let Some(x) = p.via { if x > 0 { p.via = Some(0); } }
+				}
+				let mut last = PartOut::Abort;
+				let mut resend: Vec<PartSpec> = vec![];
+				for (i, p) in parts.iter().enumerate() {
+					last = s.op_part(w, rec, p);
+					if last == PartOut::Abort { break; }
+					if last == PartOut::Refused { let mut q = p.clone(); q.delta = m as u32 + 1 + rng.below(20) as u32; resend.push(q); }
+					if i + 1 < parts.len() && rng.chance(1, 3) { s.op_block(w, rec, None); }
+				}
+				// the refused amounts again, now with an acceptable expiry: the set completes
+				if last != PartOut::Abort && rng.chance(2, 3) {
+					for q in resend.iter() { last = s.op_part(w, rec, q); if last == PartOut::Abort { break; } }
+				}
+				if last == PartOut::Claimable { tail_complete(w, rec, rng, &mut s, false, total); }
+				else if !s.dead { if rng.chance(1, 2) { s.op_tick(w, rec) } else { s.op_failback(w, rec) } }
+				s.finish(w);
+			},
 			"unmodelled" => {
 				let total = pick_total(rng, 2) + 2;
 				let amts = split(rng, total, 2);
 				let min = Some(match rng.below(3) { 0 => total, 1 => total / 2 + 1, _ => 2 + rng.below(total - 1) });
-				let what = *rng.pick(&["wrong-secret", "below-minimum", "expired-invoice"]);
+				let what = *rng.pick(&["wrong-secret", "below-minimum", "expired-invoice", "no-secret", "no-secret"]);
 				let mut s = Scn::new(w, rec, rng, kind, min, false, if what == "expired-invoice" { 1 } else { 7200 });
 				let with_valid_first = rng.chance(1, 2);
 				if with_valid_first {
@@ -1453,6 +1522,7 @@ mod mpp {
 				let good = s.secrets[0];
 				match what {
 					"wrong-secret" => { let mut x = good; let b = rng.below(256) as usize; x.0[b / 8] ^= 1 << (b % 8); s.bad_part(w, rec, what, route, rest, total, x, bad); },
+					"no-secret" => { s.bad_part(w, rec, what, route, rest, total, good, bad); },
 					"below-minimum" => { let low = s.min - 1 - rng.below(s.min.min(1000)); let low = low.max(1); s.bad_part(w, rec, what, route, rest.min(low).max(1000), low, good, bad); },
 					_ => {
 						// move the receiver's clock past the invoice expiry (creation time + 1 s + 7200 s of grace)
@@ -1601,7 +1671,7 @@ mod mpp {
 	over = extra part(s) after completion; bad-total = a part with another total_msat; tlv-mix = even/odd custom TLV mismatches; even-all = same even TLV on all parts then claim 0 / claim 1; secret-mix = second valid secret for the same hash; \
 	during-claim = the set arrives over one channel, claim_funds runs with the receiver's monitor updates held InProgress on that channel, a new part arrives over another channel (failed: the hash is in pending_claiming_payments), then the updates complete (fulfils + PaymentClaimed are attributed to the claim line, the late part's failure to its part line); deadline-order = 2-3 direct parts over distinct channels with different final CLTV expiries, the earliest-expiring one on the lowest channel id or (2 of 3) not, any arrival order, single blocks up to the ADVERTISED claim_deadline-1, then claim (must fulfil all); deadline = single blocks up to claim_deadline-1 then claim, or up to claim_deadline (parts fail by their own cltv) then claim/failback/tick/more blocks; claim-incomplete, under-claim, deadline-drop = claims that drop HTLCs silently (network abandoned afterwards); \
 	complete sets end with claim / double claim / claim+failback / failback / failback+claim / ticks+claim / blocks+claim / claim+new part under the same hash. \
-	skim = every part through the intercepting node, complete on the sender-intended amounts although less arrived, then 1-3 timer ticks, single blocks with 0-2 ticks after each up to a chosen height <= claim_deadline-1, then claim / claim+tick / failback / run into the deadline (half of the ticks+claim tails of the other schedules do the same walk); skim-under = skimmed parts that stay below total_msat, then tick / block+tick / failback; overfwd = over-paying forwards whose VALUES reach total_msat while the sender-intended amounts do not (held, failed by the tick); unmodelled (impl oracle only, no part op): wrong payment secret (1 bit flipped), total_msat below the invoice minimum, expired invoice, each alone or as the completing part of a held set. Impl oracles: PaymentClaimable only for complete sets (sum intended >= total_msat) with amount = sum of values, counterparty_skimmed_fee_msat = sum of skims, deadline = min cltv - 39, and conversely a set that completes IS announced; a PaymentClaimable set loses no HTLC to a timer tick or a block below its claim_deadline (message carries the op history); an incomplete set is failed by the tick; claim below the deadline fulfils every part and yields PaymentClaimed with the announced amount / skim / total_msat and balance delta = amount; the receive-side amount test matches value (+ skim when allowed) >= onion amount. Three probes on throw-away networks are in the notes (never in the compared stream): probe_inconsistent_claim, probe_timer_ticks_u8, probe_unsorted_incomplete_claim. distinct = distinct non-trivial op lines",
+	skim = every part through the intercepting node, complete on the sender-intended amounts although less arrived, then 1-3 timer ticks, single blocks with 0-2 ticks after each up to a chosen height <= claim_deadline-1, then claim / claim+tick / failback / run into the deadline (half of the ticks+claim tails of the other schedules do the same walk); skim-under = skimmed parts that stay below total_msat, then tick / block+tick / failback; overfwd = over-paying forwards whose VALUES reach total_msat while the sender-intended amounts do not (held, failed by the tick); unmodelled (impl oracle, op `routing` only, no part op): wrong payment secret (1 bit flipped), total_msat below the invoice minimum, expired invoice, an onion without payment secret and without keysend preimage (refused with PaymentSecretRequired), each alone or as the completing part of a held set. Impl oracles: PaymentClaimable only for complete sets (sum intended >= total_msat) with amount = sum of values, counterparty_skimmed_fee_msat = sum of skims, deadline = min cltv - 39, and conversely a set that completes IS announced; a PaymentClaimable set loses no HTLC to a timer tick or a block below its claim_deadline (message carries the op history); an incomplete set is failed by the tick; claim below the deadline fulfils every part and yields PaymentClaimed with the announced amount / skim / total_msat and balance delta = amount; the receive-side amount test matches value (+ skim when allowed) >= onion amount; min-cltv = the secret commits to a min_final_cltv_expiry_delta M, 1-3 parts with final CLTV deltas M-4..M+30 around the boundary (op `mincltv height M cltv_expiry`, oracle: failed back iff cltv_expiry < receiver height + M, never shown to the user), blocks between, refused amounts re-sent with an acceptable expiry. Three probes on throw-away networks are in the notes (never in the compared stream): probe_inconsistent_claim, probe_timer_ticks_u8, probe_unsorted_incomplete_claim. distinct = distinct non-trivial op lines",
 			done, worlds, abandoned, per_world, ks.join(" ")));
 		rec.finish();
 	}
